@@ -25,19 +25,19 @@ var verifDir = func() string {
 
 // RunCtx carries one check invocation.
 type RunCtx struct {
-	ID      string
-	Tier    string
-	Seed    int64
-	Dir     string // scratch directory (holds a copy of the spec)
-	Start   time.Time
-	Ev      Evidence
-	Viol    []Violation
-	Known   []KnownFinding
-	Infra   []string // infrastructure failures (exit 2)
-	Notes   []string
-	KFHits  map[string]int
+	ID       string
+	Tier     string
+	Seed     int64
+	Dir      string // scratch directory (holds a copy of the spec)
+	Start    time.Time
+	Ev       Evidence
+	Viol     []Violation
+	Known    []KnownFinding
+	Infra    []string // infrastructure failures (exit 2)
+	Notes    []string
+	KFHits   map[string]int
 	judgeSeq int
-	samples []any
+	samples  []any
 }
 
 // Violation is one reproduced rejection.
